@@ -244,6 +244,6 @@ wrapper_strategy = st.fixed_dictionaries(
 )
 
 SUBS = [
-    Sub("raw", check_raw, strategy=raw_strategy, nontrivial=nt_raw, classes=lambda c: sorted(b_flags(c)[0]), n_quick=1600, n_thorough=4000),
+    Sub("raw", check_raw, fuzz_runs=1500, strategy=raw_strategy, nontrivial=nt_raw, classes=lambda c: sorted(b_flags(c)[0]), n_quick=1600, n_thorough=4000),
     Sub("wrappers", check_wrapper, strategy=lambda tier: wrapper_strategy, nontrivial=lambda c: len(c["row"]) >= 1, classes=lambda c: [c["kind"]], n_quick=400, n_thorough=1500),
 ]
